@@ -1,0 +1,110 @@
+//go:build verif
+
+// Machine-checked contracts for package strategy (read by /verif/govc; comment-only).
+// Actions are integers: Sell = -1, Hold = 0, Buy = 1.
+
+package strategy
+
+// ---- interface Strategy (C05 for an arbitrary wrapped strategy; warmup(self) is its abstract warm-up >= 0) ----
+//@ func interface Strategy.Compute
+//@ requires consumed(p0) == 0
+//@ ensures[C05] len(result) >= len(p0) && (len(p0) >= warmup(self) ==> len(result) == len(p0))
+//@ ensures[C05] forall k :: 0 <= k && k < len(result) ==> 0 - 1 <= result[k] && result[k] <= 1
+//@ ensures[C05] forall k :: 0 <= k && k < min(warmup(self), len(result)) ==> result[k] == 0
+//@ ensures[C05] len(p0) < warmup(self) ==> (forall k :: 0 <= k && k < len(result) ==> result[k] == 0)
+//@ ensures[C03] consumed(p0) == len(p0) && closed(result)
+//@ ensures[C04] forall k :: 0 <= k && k < len(result) && k < len(p0) ==> hor(result, k) <= hor(p0, k)
+
+//@ func NormalizeActions
+//@ requires consumed(ac) == 0 && (forall k :: 0 <= k && k < len(ac) ==> 0 - 1 <= ac[k] && ac[k] <= 1)
+//@ ensures[C08,C14] len(result) == len(ac)
+//@ ensures[C08,C14] forall k :: 0 <= k && k < len(result) ==> result[k] == normS(ac, k)
+//@ ensures[C03] consumed(ac) == len(ac) && closed(result)
+//@ ensures[C04] forall k :: 0 <= k && k < len(result) ==> hor(result, k) <= hor(ac, k)
+//@ lit#0 invariant (last == 1 || last == 0 - 1) && last == nlast(ac, calls)
+//@ lit#0 yields normS(ac, calls)
+//@ lit#0 ensures[C08] "alternates" ret != 0 ==> ret == 0 - old(last) && last == ret && ret == a
+//@ lit#0 ensures[C08] "hold-keeps-state" ret == 0 ==> last == old(last)
+
+//@ func DenormalizeActions
+//@ requires consumed(ac) == 0
+//@ ensures[C07,C08] len(result) == len(ac)
+//@ ensures[C07,C08] forall k :: 0 <= k && k < len(result) ==> result[k] == dlast(ac, k + 1)
+//@ ensures[C03] consumed(ac) == len(ac) && closed(result)
+//@ ensures[C04] forall k :: 0 <= k && k < len(result) ==> hor(result, k) <= hor(ac, k)
+//@ lit#0 invariant last == dlast(ac, calls)
+//@ lit#0 yields dlast(ac, calls + 1)
+
+// the standing recommendation of a stream of actions is an action, and is Hold while only Holds have been seen
+//@ lemma dlast_range(a istream, k int)
+//@ requires[C07,C05] 0 <= k && k <= len(a) && (forall j :: 0 <= j && j < len(a) ==> 0 - 1 <= a[j] && a[j] <= 1)
+//@ ensures[C07,C05] 0 - 1 <= dlast(a, k) && dlast(a, k) <= 1
+//@ induction k
+//@ lemma dlast_hold(a istream, w int, k int)
+//@ requires[C07,C05] 0 <= k && k <= w && k <= len(a) && (forall j :: 0 <= j && j < w && j < len(a) ==> a[j] == 0)
+//@ ensures[C07,C05] dlast(a, k) == 0
+//@ induction k
+
+// denormalising then normalising is the identity on normalised streams (C08), by induction on the position
+//@ lemma norm_denorm_id(s istream, d istream, k int)
+//@ requires[C08] 0 <= k && k <= len(s) && len(d) == len(s)
+//@ requires[C08] forall j :: 0 <= j && j < len(s) ==> 0 - 1 <= s[j] && s[j] <= 1 && normS(s, j) == s[j] && d[j] == dlast(s, j + 1)
+//@ ensures[C08] (dlast(s, k) == 0 ==> nlast(d, k) == 0 - 1 && nlast(s, k) == 0 - 1) && (dlast(s, k) != 0 ==> nlast(d, k) == dlast(s, k) && nlast(s, k) == dlast(s, k))
+//@ ensures[C08] k < len(s) ==> normS(d, k) == s[k]
+//@ induction k
+
+//@ func CountTransactions
+//@ requires consumed(ac) == 0
+//@ ensures[C08] len(result) == len(ac)
+//@ ensures[C08] forall k :: 0 <= k && k < len(result) ==> result[k] == ntrans(ac, k + 1)
+//@ ensures[C03] consumed(ac) == len(ac) && closed(result)
+//@ lit#0 invariant transactions == ntrans(ac, calls)
+//@ lit#0 yields ntrans(ac, calls + 1)
+
+// Outcome: all-in / all-out portfolio started with one unit of cash (C08)
+//@ func Outcome
+//@ requires consumed(values) == 0 && consumed(actions) == 0
+//@ requires forall k :: 0 <= k && k < len(values) ==> values[k] > 0
+//@ ensures[C08,C14] len(result) == min(len(values), len(actions))
+//@ ensures[C03] consumed(values) == len(values) && consumed(actions) == len(actions) && closed(result)
+//@ ensures[C04] forall k :: 0 <= k && k < len(result) ==> hor(result, k) <= max(hor(values, k), hor(actions, k))
+//@ ensures[C08] forall k :: 0 <= k && k < len(result) ==> result[k] >= 0 - 1
+//@ lit#0 invariant balance >= 0 && shares >= 0 && balance * shares == 0 && balance + shares > 0
+//@ lit#0 invariant nobuy(actions, calls) ==> balance == 1 && shares == 0
+//@ lit#0 invariant calls > 0 && bhword(actions, calls) ==> balance == 0 && shares == 1 / values[0]
+//@ lit#0 ensures[C08] "never-below-minus-100-percent" ret >= 0 - 1
+//@ lit#0 ensures[C08] "zero-until-first-buy" nobuy(actions, calls + 1) ==> ret == 0
+//@ lit#0 ensures[C08] "buy-and-hold" bhword(actions, calls + 1) ==> ret == value / values[0] - 1
+//@ lit#0 ensures[C08] "redundant-actions-are-noops" (old(shares) > 0 && action == Buy) || (old(balance) > 0 && action == Sell) || action == Hold ==> balance == old(balance) && shares == old(shares)
+//@ lit#0 ensures[C08] "buy-converts-all-cash" old(balance) > 0 && action == Buy ==> shares == old(balance) / value && balance == 0
+//@ lit#0 ensures[C08] "sell-converts-all-shares" old(shares) > 0 && action == Sell ==> balance == old(shares) * value && shares == 0
+//@ lit#0 ensures[C08] "outcome-is-portfolio-value" ret == balance + shares * value - 1
+
+//@ func ComputeWithOutcome
+//@ requires consumed(c) == 0 && (forall k :: 0 <= k && k < len(c) ==> c[k].Close > 0)
+//@ ensures[C08,C14] len(result0) >= len(c) && len(result1) == len(c)
+//@ ensures[C05] len(c) >= warmup(s) ==> len(result0) == len(c)
+//@ ensures[C05] forall k :: 0 <= k && k < len(result0) ==> 0 - 1 <= result0[k] && result0[k] <= 1
+//@ ensures[C03] consumed(c) == len(c) && closed(result0) && closed(result1)
+//@ ensures[C04] forall k :: 0 <= k && k < len(result0) && k < len(c) ==> hor(result0, k) <= hor(c, k)
+//@ ensures[C04] forall k :: 0 <= k && k < len(result1) ==> hor(result1, k) <= hor(c, k)
+
+//@ func BuyAndHoldStrategy.Compute
+//@ requires consumed(snapshots) == 0
+//@ ensures[C05,C06] len(result) == len(snapshots)
+//@ ensures[C05,C06] forall k :: 0 <= k && k < len(result) ==> result[k] == (k == 0 ? Buy : Hold)
+//@ ensures[C03] consumed(snapshots) == len(snapshots) && closed(result)
+//@ ensures[C04] forall k :: 0 <= k && k < len(result) ==> hor(result, k) <= hor(snapshots, k)
+//@ loop#0 invariant consumed(closings) == sent(actions) && sent(actions) >= 1 && !closed(actions)
+//@ loop#0 invariant forall k :: 0 <= k && k < sent(actions) ==> actions[k] == (k == 0 ? Buy : Hold) && hor(actions, k) <= hor(snapshots, k)
+
+// Split: Buy from the first, Sell from the second, unless they conflict (C07)
+//@ func SplitStrategy.Compute
+//@ requires consumed(snapshots) == 0
+//@ ensures[C05] len(result) >= len(snapshots)
+//@ ensures[C05] forall k :: 0 <= k && k < len(result) ==> 0 - 1 <= result[k] && result[k] <= 1
+//@ ensures[C03] consumed(snapshots) == len(snapshots) && closed(result)
+//@ ensures[C04] forall k :: 0 <= k && k < len(result) && k < len(snapshots) ==> hor(result, k) <= hor(snapshots, k)
+//@ loop#0 invariant consumed(buyActions) == sent(result) && consumed(sellActions) == sent(result) && !closed(result)
+//@ loop#0 invariant forall k :: 0 <= k && k < sent(result) ==> result[k] == ((buyActions[k] == Buy && sellActions[k] != Sell) ? Buy : ((sellActions[k] == Sell && buyActions[k] != Buy) ? Sell : Hold))
+//@ loop#0 invariant forall k :: 0 <= k && k < sent(result) && k < len(snapshots) ==> hor(result, k) <= hor(snapshots, k)
